@@ -19,6 +19,8 @@ def corpus():
         "scn 5 _/r1.Q|L1|r1.Pv|L2|E c1=L9",
         "scn 4 _/Pe|Ps|A|_ -",
         "scn 4 _/WN.L1|WPr.L2|WF.L3|_ -",
+        "pool.handles 2 1",          # two pools of one manager (file stages): a failure must stay on its own handle
+        "pool.handles 3 2",
     ]
 
 
